@@ -13,7 +13,11 @@ pub struct Ident { pub name: VStr, pub ty: Option<TypeLayout>, pub read_only: bo
 impl Ident {
     pub fn is_const(&self) -> (r: bool) ensures r == self.read_only { self.read_only }
     #[verifier::external_body] pub fn name(&self) -> (r: &VStr) ensures *r == self.name { unimplemented!() }
+    // the identifier's own type is the captured-variable wrapper: this is how an earlier `modify` of the same function registers the name
+    #[verifier::external_body] pub fn is_instance_callback_variable(&self) -> (r: Result<bool, VErr>) ensures r is Ok <==> self.ty is Some, r is Ok ==> r->Ok_0 == is_callback_ty(self.ty->Some_0) { unimplemented!() }
 }
+pub open spec fn registered_as_captured(i: Ident) -> bool { i.ty is Some && is_callback_ty(i.ty->Some_0) }
+pub fn res_unwrap_or(x: Result<bool, VErr>, d: bool) -> (r: bool) ensures r == (if x is Ok { x->Ok_0 } else { d }) { match x { Ok(b) => b, Err(_) => d } }
 #[verifier::external_body] pub struct ValueV { x: usize }
 #[verifier::external_body] pub struct UserData { x: usize }
 pub struct AssignmentFlag(pub u8);
@@ -46,6 +50,7 @@ def build(repo):
         Rule("R9", "user_data . get_dependency_flags_from_name_skip_n ( $$a ) . context ( $m ) ?", "opt_ctx ( user_data . get_dependency_flags_from_name_skip_n ( $$a ) ) ?", why="Option::context"),
         Rule("R9", "user_data . get_dependency_flags_from_name ( $$a ) . context ( $m , ) ?", "opt_ctx ( user_data . get_dependency_flags_from_name ( $$a ) ) ?", why="Option::context"),
         Rule("R9", "user_data . get_dependency_flags_from_name ( $$a ) . context ( $m ) ?", "opt_ctx ( user_data . get_dependency_flags_from_name ( $$a ) ) ?", why="Option::context"),
+        Rule("R9", "$x . is_instance_callback_variable ( ) . unwrap_or ( $d )", "res_unwrap_or ( $x . is_instance_callback_variable ( ) , $d )", why="Result::unwrap_or"),
         Rule("R9", "has_been_declared . map_or_else ( || true , | ident | ! ident . is_const ( ) )", "( match has_been_declared { None => true , Some ( ident ) => ! ident . is_const ( ) } )", why="Option::map_or_else -> match"),
     ], log, "Assignment::can_modify_if_applicable")
     check_closed(b, "can_modify_if_applicable")
@@ -56,9 +61,13 @@ impl Assignment {{
         requires is_modify == has_modify(&self.flags),          // Parser::assignment sets the flag from the same `modify` keyword
         ensures
             // `modify NAME = v`: accepted only for a variable CAPTURED from an enclosing function (the innermost scope holds this statement's own
-            // identifier and is skipped), and the answer is that variable's const flag
+            // identifier and is skipped) -- found beyond a function boundary, or registered in this function AS the captured variable by an earlier
+            // `modify` (D116: a second `modify` in a nested block is as legal as the first) -- and the answer is that variable's const flag
             (is_modify && r is Ok) ==> self.idents@.len() == 1 && ({{ let t = lookup_skip(user_data, str_view(&self.idents@[0].name), 1);
-                t is Some && t->Some_0.1 && r->Ok_0 == !t->Some_0.0.read_only }}),
+                t is Some && (t->Some_0.1 || registered_as_captured(t->Some_0.0)) && r->Ok_0 == !t->Some_0.0.read_only }}),
+            // .. and every such variable IS accepted (no legal target is refused)
+            (is_modify && self.idents@.len() == 1) ==> ({{ let t = lookup_skip(user_data, str_view(&self.idents@[0].name), 1);
+                (t is Some && (t->Some_0.1 || registered_as_captured(t->Some_0.0))) ==> r is Ok }}),
             // a plain assignment: the const flag of the declaration in the innermost scope, if there is one
             (!is_modify && r is Ok) ==> self.idents@.len() == 1 && ({{ let t = lookup_local(user_data, str_view(&self.idents@[0].name));
                 r->Ok_0 == (t is None || !t->Some_0.read_only) }}),
